@@ -307,6 +307,7 @@ def run(idx, rep, tier):
     rep.floor("key-chain", 6)
     rep.floor("key-derivation", 4)
     rep.floor("loop-cap", 1)
+    rep.floor("key-advance", 1)
     rep.floor("key-forward", 3)
     rep.floor("rng-alias", 1)
     rep.explanation = ("Who-may-call + typestate: every reference to numpy.random / random / torch RNG state in cola/ is collected through import "
